@@ -31,7 +31,7 @@ def setup(c):
 def cases(c):
     rng = c.rng('cases')
     out = []
-    n = 120 if c.tier == 'quick' else 4800
+    n = 120 if c.tier == 'quick' else 19200
     for cls in E.CLASSES:
         for j in range(n):
             N = int(rng.integers(16, 72))
